@@ -49,12 +49,19 @@ def pkg_cases(draw, max_classes: int = 7, leaf_only_instance_attrs: bool = False
     layout = draw(st.sampled_from(("", "", "lib", "twin-pkg", "twin-top"))) if max(mods) else ""
     if hist_kind == "late" and not layout:
         layout = "lib"
+    # module names where one is a string prefix of another (zoo.animal / zoo.animal_mixins, m1 / m10): the importing
+    # (later) module has the shorter name. Not combined with the twin layouts, which need the default names.
+    names_all = None
+    scheme = draw(st.sampled_from(("", "", "under", "digits"))) if max(mods) and not layout.startswith("twin") else ""
+    if scheme:
+        last = max(mods)
+        names_all = [("mz" + "_x" * (last - m)) if scheme == "under" else ("m1" + "0" * (last - m)) for m in range(last + 1)]
     lib = None
     if layout:
         split = draw(st.integers(1, max(mods)))
         napp = max(mods) + 1 - split
         if layout == "lib":
-            modnames = [f"m{a}" for a in range(split)]
+            modnames = [(names_all or [f"m{a}" for a in range(split)])[a] for a in range(split)]
         else:
             modnames = [f"m{split + a}" if a < napp else f"m{a}" for a in range(split)]
         lib = {"split": split, "style": "top" if layout == "twin-top" else "pkg", "name": "pkg" if layout == "twin-pkg" else H.LIB, "modnames": modnames}
@@ -120,6 +127,8 @@ def pkg_cases(draw, max_classes: int = 7, leaf_only_instance_attrs: bool = False
     spread = sum(((ibits >> (8 * i)) & 31) << (5 * i) for i in range(n))
     init = H.init_from_bits(spread, members, bases, leaf_only=leaf_only_instance_attrs)
     case = {"kind": "pkg", "bases": bases, "members": members, "mods": mods, "via": via, "resolve": resolve, "init": init}
+    if names_all:
+        case["modnames"] = names_all
     if any(depth):
         case["depth"] = depth
     if any(cgi):
